@@ -151,7 +151,7 @@ def run(ctx, only=None):
         for f in obs['failures']:
             ctx.violation(f'{f["cell"]}|{f["client"]}|{f["kind"]}', f'{f["cell"]} {f["client"]} history={f["history"]}: {f["kind"]}: {f["detail"]}',
                           dict(cells=[f['cell']]))
-    if not only and hist_total < 3000:
+    if not only and hist_total < 3000 and not ctx.violations:
         raise HarnessError(f'C09 exploration collapsed: {hist_total} histories')
     ctx.extra['bound'] = 'fault histories retryable^k, k<=4 (5 thorough), every combination of the entry codes (all-codes entry: k<=2)'
     ctx.assume('jitter pinned to its upper bound (random.uniform(a,b)=b); time is virtual; api-core retry/timeout classes are trusted')
